@@ -25,7 +25,7 @@ def ov_tree(g, rng, depth, mode):
     # from one timeline or a union of them
     smode = rng.choice([None, "nested", "nested", "dup", mode])
     return {"op": "sub", "l": ov_tree(g, rng, depth - 1, mode),
-            "r": g.tree(rng.choice([0, 0, 1]), ["or", "or", "and", "sub", "inv"], smode)}
+            "r": g.with_empty_event(g.tree(rng.choice([0, 0, 1]), ["or", "or", "and", "sub", "inv"], smode), 0.2)}
 
 
 def gen_overlapping(g, rng, tier, n):
@@ -97,6 +97,16 @@ def gen_filters(g, rng, tier, n):
             evs.append([s, e, g.fresh()])
         f = filt_scaled(g, rng, 2, scale)
         t = {"op": "filt", "s": {"op": "stored", "evs": evs}, "f": f}
+        if rng.random() < 0.12:
+            # a guarded chain  tl & (prio != None) & (prio >= k): the second predicate is only defined
+            # on the events the first lets through (ordering a None would raise TypeError), so the
+            # filters must be applied in the order written
+            guard = {"k": "cmp", "p": ["field", "prio"], "c": "ne", "v": ["none"]}
+            second = {"k": "cmp", "p": ["field", "prio"], "c": rng.choice(["ge", "le", "gt", "lt"]),
+                      "v": ["int", rng.choice([0, 1, 2, 5])]}
+            if all(e[2] % 5 for e in evs):
+                evs[0][2] = 5 * (max(e[2] for e in evs) // 5 + 1)      # an event whose prio is None (ids = 0 mod 5)
+            t = {"op": "filt", "s": {"op": "filt", "s": {"op": "stored", "evs": evs}, "f": guard}, "f": second}
         if rng.random() < 0.15:
             t = {"op": "or", "l": t, "r": g.leaf("disjoint")}
         yield dict(tree=t, q=[(None, None, False) if rng.random() < 0.5 else (rng.choice([-1, 0, 50]), rng.choice([None, 200, 10 ** 6]), False)])
